@@ -117,3 +117,23 @@ PROPS['C36']['level'] = (
     'Static necessary conditions for crash safety: no partial frame is ever delivered, receives complete only from complete frames, '
     'output recombines only after all requested shares arrived and nothing substitutes a missing share, disconnects surface. Crash '
     'points and schedules are not enumerated (that would be a different technique).')
+
+from . import rules_lv as lv
+
+PROPS['C35'] = {
+    'rules': [R(lv.rule_LV1), R(lv.rule_LV2), R(lv.rule_LV3), R(lv.rule_LV4), R(fr.rule_CR4)],
+    'floors': {'LV1': 7, 'LV2': 8, 'LV3': 7, 'LV4': 4, 'CR4': 2},
+    'explanation': 'Decides the acquire/release discipline of the pending-coroutine level and the "wait and synchronise before close" '
+                   'shape: every exit of the coroutine launcher releases the level or registers the releasing callback on the task it '
+                   'schedules (LV1); _reconcile releases first and only launcher/reconciler/constructor write the level (LV2); shutdown '
+                   'waits unconditionally with the predicate level > depth, awaits an all-party transfer, closes exactly the '
+                   'connections it opened and waits until all are deregistered (LV3); barrier waits with the same predicate unless '
+                   'barriers are disabled or evaluation is synchronous (LV4); closed connections deregister (CR4).',
+    'assumptions': ['the event loop eventually runs every ready task', 'user programs call barrier/shutdown at top level (depth 0) as documented'],
+    'level': 'Static pairing / dominance analysis over asyncoro.mpc_coro, _reconcile, Runtime.barrier/shutdown/start/unset_protocol. Decides the '
+             'structural reasons why barrier and shutdown wait for all started coroutines on every schedule; it does not execute schedules.',
+}
+PROPS['C09']['rules'] += [R(lv.rule_LV3), R(lv.rule_LV1), R(lv.rule_LV2)]
+PROPS['C09']['floors'].update({'LV3': 7, 'LV1': 7})
+PROPS['C09']['explanation'] += (' No receive is left unmatched at shutdown: shutdown waits unconditionally for all started coroutines '
+                                'before synchronising and closing (LV1-LV3).')
